@@ -106,6 +106,12 @@ def run(prop, tier, replay):
                               consts={"Variant": '"event"', "MaxEvents": 4 if tier == "quick" else 5})
                 # the pinned/`event` design is known not to converge under a lagging worker (see DESIGN.md, C11 finding): not an infra error
                 states, trans = mc.distinct, mc.generated
+                # "at every moment": the writes of one update (kept names never touched verified; delete-all-then-re-add refuted)
+                for variant, expect in (("diff", False), ("rebuild", True)):
+                    nu = vlib.tlc("dataplane", "NameUpdate", "NameUpdate.cfg", workers=4, timeout=600, consts={"Variant": '"%s"' % variant})
+                    if bool(nu.violation) != expect:
+                        raise Infra("NameUpdate.tla variant %s: unexpected result %s" % (variant, nu.violated()))
+                    states, trans = states + nu.distinct, trans + nu.generated
                 n = 120 if tier == "quick" else 1500
                 gen = vlib.tlc("dataplane", "NamesGen", "NamesGen.cfg", workers=1, timeout=900, simulate="num=%d" % (n * 3), depth=40, tlc_seed=seed)
                 hists = list({vlib.canon(h): h for h in gen.json_prints("HIST")}.values())
@@ -150,6 +156,9 @@ def run(prop, tier, replay):
         for sid, t in traces.items():
             evs = []
             for e in t["events"]:
+                if e["k"] == "mid":
+                    evs.append({"k": "mid", "resolve": e["resolve"]})
+                    continue
                 if e["k"] != "obs":
                     evs.append({"k": e["k"]})
                     continue
@@ -180,16 +189,18 @@ def run(prop, tier, replay):
             rejected = still
         for sid, (line, why) in sorted(rejected.items()):
             e = by_id[sid]["events"][line - 1]
-            detail = {"resolve": e.get("resolve"), "latest": e.get("latest")} if why == "names" else \
+            detail = {"resolve": e.get("resolve"), "latest": e.get("latest")} if why == "names" else {"table_after_a_write": e.get("resolve")} if why == "mid" else \
                      {c: {"effective": e["eff"][c], "fresh": e["fresh"][c]} for c in e["eff"] if e["eff"][c] != e["fresh"][c]}
             v.violation("trace-%s" % sid, {"scenario": sc_by_id[sid], "kind": kinds.get(sid), "observation_index": line, "clause": why, "detail": detail,
                                            "what": "host resolution / TLS selection differs from the latest objects" if why == "names"
+                                                   else "in the middle of an update a name resolved neither as before nor as after it (a kept name was unresolvable, or another cluster's name was touched)" if why == "mid"
                                                    else "effective configuration differs from a fresh gateway given only the latest objects"})
         rc = v.finish()
         obs = [e for t in tl for e in t["events"] if e["k"] == "obs"]
         cov = {"states": states + tv.distinct, "transitions": trans + tv.generated, "traces_validated_against_impl": len(tl) - len(rejected),
                "samples": [[{k: x[k] for k in ("k",) + (("resolve", "latest") if x["k"] == "obs" else ())} for x in tl[0]["events"][:4]]],
-               "evaluations": len(obs), "distinct_nontrivial": len({vlib.canon(e) for e in obs}),
+               "evaluations": len(obs) + (sum(1 for t in tl for e in t["events"] if e["k"] == "mid") if prop == "C10" else 0),
+               "table_snapshots_after_each_write": sum(1 for t in tl for e in t["events"] if e["k"] == "mid"), "distinct_nontrivial": len({vlib.canon(e) for e in obs}),
                "rule": "one evaluation = one observation of the real gateway (host table through the real filters, SNI callback, effective configuration, fresh gateway); "
                        "histories: TLC -simulate over Names.tla (3 clusters, 2 aliases, create/update/delete, random spellings) and Reload.tla (one field changed per version)",
                "scenario_kinds": {k: sum(1 for x in kinds.values() if x == k) for k in set(kinds.values())},
